@@ -662,6 +662,39 @@ def run_repeated_selection(chk, spec):
 
 RUNNERS.update({"repeated_selection": run_repeated_selection})
 
+class _Opaque:
+	"""a value compared by identity (no __eq__ of its own)"""
+
+
+def run_self_compare_identity(chk, spec):
+	"""v == v on cells that are compared by identity: Python's own comparison of each cell WITH ITSELF (True for ==, False for !=) - the copy the library
+	takes of an operand that is the left operand itself must be a copy of the vector, not of its cells"""
+	import operator
+	n = spec["n"]
+	cells = [_Opaque() if i % 2 == 0 or spec["all"] else ("s", i) for i in range(n)]
+	if spec["target"] == "vector":
+		x = Vector(list(cells))
+		flat = lambda r: list(r)
+	elif spec["target"] == "row":
+		x = Table([Vector([c, c], name=f"c{i}") for i, c in enumerate(cells)])[0]
+		flat = lambda r: list(r)
+	else:
+		x = Table({"a": list(cells), "b": list(range(n))})
+		flat = lambda r: list(r.cols()[0])
+	op = getattr(operator, spec["opname"])
+	o = call(lambda: op(x, x))
+	chk.judged("compare", ("self-compare-identity", spec["target"], spec["opname"], n))
+	exp = [op(c, c) for c in cells]
+	if not o.ok:
+		chk.fail("comparison is computed elementwise by Python's comparison", f"compare/self/raises/{spec['target']}/{type(o.exc).__name__}", f"{spec!r}: {o!r}")
+		return
+	got = flat(o.value)
+	if got != exp:
+		chk.fail("comparison is computed elementwise by Python's own comparison", f"compare/self/identity-cells/{spec['target']}/{spec['opname']}", f"{spec!r}: x {spec['opname']} x gave {got!r}; each cell compared with itself gives {exp!r}")
+
+
+RUNNERS.update({"self_compare_identity": run_self_compare_identity})
+
 
 def run(chk):
 	recompute.add_cases(chk, "C07")
@@ -825,6 +858,11 @@ def run(chk):
 			cols = [dup, dup]
 		rng.shuffle(cols)
 		chk.case("repeated_selection", {"table": ts, "cols": cols, "dup": dup, "rows": rng.choice([None, None, (None, None, None), (0, None, None)]), "order": rng.choice(["rows-first", "cols-first"])}, "repeated-selection")
+	for target in ("vector", "row", "table"):
+		for opname in ("eq", "ne"):
+			for n in (1, 2, 4):
+				for all_ in (True, False):
+					chk.case("self_compare_identity", {"target": target, "opname": opname, "n": n, "all": all_}, "self-compare-identity")
 	near = {"names": ["amt", "amt", "a b", "c"], "cols": [[1, 2], [3, 4], [5, 6], [7, 8]]}
 	for missing in ("amt__01", "amt__\u0661", "a b__2", "amt__2", "amt__3", "amt__-1", "amt__1 ", " amt__1", "a-b__2", "a_b__02", "amt__1__1", "amt___1", "col0_", "col_0", "c__03", "amt__+1", "amt__1.0"):
 		chk.case("table_missing", {"table": near, "cols": [missing], "single": True, "pos": "first"}, "table-missing-near-accessor")
